@@ -91,9 +91,12 @@ CHECKS.update({
                  "R-TAB T1,T2,T3,T7,T10,T11,T19 " + TAB + "; " + BP + "; R-GUARD " + G + "; R-CFORM " + CF + "; R-SIB hash-probe modulus; R-ERRFLOW error-flow exploration; R-WALK walk typestate (bounded k)"),
  "C06": _partial("C06", "uncompactCells writes outSet[i] only where i < numOut and returns E_MEMORY_BOUNDS when the capacity is reached; a target resolution coarser than a visited "
                  "cell (or above 15) => E_RES_MISMATCH, never success; uncompactCells expands each input cell into exactly its children in index order (iterator induction as in C04 + "
-                 "R-DRAIN on its loop); cellToParent (used to find the parents compactCells counts) is bit-exact; both hash probes of compactCells wrap with the modulus they start with.",
-                 "losslessness / canonicity / order independence of compactCells (runtime data structure: counts in reserved bits, duplicate detection).",
-                 "R-BW " + BW + "; R-GUARD " + G + "; " + BP + "; R-DRAIN; R-SIB hash-probe modulus; R-ERRFLOW"),
+                 "R-DRAIN on its loop); cellToParent (used to find the parents compactCells counts) is bit-exact; both hash probes of compactCells wrap with the modulus they start with; "
+                 "the three sites of compactCells that read the child counter agree with the family size (7 children, 6 for a pentagon, decided by isPentagon(parent)) for every reachable "
+                 "counter value: duplicates reported exactly when a further child exceeds the family, a parent collected exactly when complete, children dropped exactly for collected "
+                 "parents; a copy from a work list to the output without that classification moves at most 5 cells (R-FAMILY).",
+                 "losslessness / canonicity / order independence of compactCells as a whole (contents of the hash set after a round: runtime data structure).",
+                 "R-BW " + BW + "; R-GUARD " + G + "; " + BP + "; R-DRAIN; R-SIB hash-probe modulus; R-ERRFLOW; R-FAMILY counter-site exploration over LLVM IR"),
  "C08": _partial("C08", "face adjacency/rotation tables are mutual inverses (T5), overage tables (T9), substrate vertex tables are closed ccw rings and the pentagon ones are their "
                  "first five rows (T13); cellAreaKm2 = Rads2*R^2, cellAreaM2 = Km2*10^6; cellAreaRads2 adds one triangle per side (i, (i+1) mod numVerts) of the boundary ring, "
                  "every side once, accumulator from 0.0 (R-FOLD).",
